@@ -162,7 +162,15 @@ def value_sources(func: Func, expr: ast.AST, at: Optional[ast.AST] = None, depth
             if d <= 0:
                 continue
             if isinstance(st, ast.Assign):
-                visit_expr(st.value, st, d - 1)
+                tgt = st.targets[0] if len(st.targets) == 1 else None
+                if isinstance(tgt, (ast.Tuple, ast.List)) and isinstance(st.value, (ast.Tuple, ast.List)) and len(tgt.elts) == len(st.value.elts) \
+                        and sum(1 for e in tgt.elts if isinstance(e, ast.Name) and e.id == name) == 1:
+                    # a, b = x, y: `a` comes from x only
+                    for e, v in zip(tgt.elts, st.value.elts):
+                        if isinstance(e, ast.Name) and e.id == name:
+                            visit_expr(v, st, d - 1)
+                else:
+                    visit_expr(st.value, st, d - 1)
             elif isinstance(st, ast.AugAssign):
                 visit_expr(st.value, st, d - 1)
                 visit_name(name, st, d - 1)
